@@ -523,7 +523,12 @@ class Parser:
         return p
 
     def expr(self):
-        return self.postfix()
+        e = self.postfix()
+        # a product of two operands (CONST * x): the only arithmetic besides += / -=
+        if self.peek() == "*" :
+            self.eat()
+            e = ("mul", e, self.postfix())
+        return e
 
     def args(self):
         self.eat("(")
@@ -746,6 +751,8 @@ class Gen:
             return "(VC \"closure\" [%s])" % "; ".join(env[n] for n in x[1] if n in env)
         if k == "add":
             return "(v_add %s %s)" % (self.e(x[1], env), self.e(x[2], env))
+        if k == "mul":
+            return "(v_mul %s %s)" % (self.e(x[1], env), self.e(x[2], env))
         if k == "sub":
             return "(v_sub %s %s)" % (self.e(x[1], env), self.e(x[2], env))
         if k == "callval":
